@@ -71,6 +71,7 @@ def run(ctx):
     rule_rebuild(ctx, rci)
     rule_vlq(ctx, rci)
     rule_bpm_assignment(ctx, rci)
+    rule_track_count(ctx, rci)
     # the round trip is reader o writer: the reader rules above decode exactly what the writer's primitives emit;
     # that the writer emits the music's event stream (delays included) is C16's stream rule, discharged here as well
     from . import c16
@@ -424,3 +425,37 @@ def rule_bpm_assignment(ctx, rci):
     ctx.check(ok, R, "no-tracks", fm.where(), "MIDI_to_Composition(<file of an empty composition>)",
               "a file with zero tracks (what write_Composition writes for an empty composition) gives %s instead of a composition with no tracks: "
               "the tempo is only assigned while reading a tempo event" % [(x.kind, short(repr(x.value), 60)) for x in p])
+
+
+def rule_track_count(ctx, rci):
+    """As many tracks come back as chunks were written -- also tracks without a single note (the writer writes a chunk for
+    every track of the composition; a track of rests, or an empty one, is a track)."""
+    R = "R-C17-5"
+    repo = ctx.repo
+    fm = repo.find_method(rci, "MIDI_to_Composition")
+    fe = repo.find_method(rci, "parse_midi_event")
+
+    def decode_event(data):
+        p = explore(interp_factory(repo), lambda it: it.call_function(fe, [reader_obj(rci), md.AFile(data[1:])], {}))
+        if len(p) != 1 or p[0].kind != "return":
+            raise AnalysisError("reader cannot parse the writer's event %r: %s" % (data, [(x.kind, x.value) for x in p]))
+        return p[0].value[0]
+    tempo = decode_event(writer_bytes(repo, "set_tempo_event", [120]))
+    on = decode_event(writer_bytes(repo, "note_on", [0, 60, 64]))
+    off = decode_event(writer_bytes(repo, "note_off", [0, 60, 64]))
+    sounding = [[0, tempo], [0, on], [72, off]]
+    silent = [[0, tempo]]
+    key = "%s.MidiFile.parse_midi_file" % MI
+    for label, tracks in (("silent, sounding", [silent, sounding]), ("sounding, silent", [sounding, silent]), ("silent, silent, sounding", [silent, silent, sounding]),
+                          ("sounding, sounding", [sounding, sounding]), ("silent", [silent]), ("silent, silent", [silent, silent])):
+        summ = {key: lambda it, a, k, n, tracks=tracks: ((1, len(tracks), {"fps": False, "ticks_per_beat": 72}), [[list(e) for e in t] for t in tracks])}
+        try:
+            p = explore(interp_factory(repo, summ), lambda it: it.call_function(fm, [reader_obj(rci), "file.mid"], {}))
+        except CannotDecide as e:
+            raise AnalysisError("MIDI_to_Composition on tracks [%s]: %s" % (label, e))
+        got = None
+        if len(p) == 1 and p[0].kind == "return" and isinstance(p[0].value, tuple) and isinstance(p[0].value[0], AObj):
+            ts = p[0].value[0].attrs.get("tracks")
+            got = len(ts) if isinstance(ts, list) else None
+        ctx.check(got == len(tracks), R, "track-count[%s]" % label, fm.where(), "MIDI_to_Composition(<format 1 file with the tracks: %s>)" % label,
+                  "%s tracks come back for %d chunks: %s" % (got, len(tracks), [(x.kind, short(repr(x.value), 60)) for x in p]))
